@@ -116,3 +116,11 @@ void inst_uses(VecS& vs, VecB& vb, const Dist::Comm& comm, const std::vector<int
   (void)inst_vector_reductions(gs);
   (void)inst_vector_reductions(gb);
 }
+
+// member templates that make a global container a conversion of another one (rule E1.global-copy-complete)
+void inst_converts(Global::Vector<VecS, Mir>& v, const Global::Gate<VecS, Mir>* g, const Global::Vector<VecS, Mir>& vo,
+  Global::Matrix<MatS, Mir, Mir>& m, Global::Gate<VecS, Mir>* rg, Global::Gate<VecS, Mir>* cg, const Global::Matrix<MatS, Mir, Mir>& mo)
+{
+  v.convert(g, vo);
+  m.convert(rg, cg, mo);
+}
